@@ -5,6 +5,8 @@
 //   misc --part fwdseq --one ID           a single case (replay)
 #include <xtl/xclosure.hpp>
 #include <xtl/xdynamic_bitset.hpp>
+#include <xtl/xmasked_value.hpp>
+#include <xtl/xoptional.hpp>
 #include <xtl/xsequence.hpp>
 
 #include "c07_payload.hpp"
@@ -353,6 +355,159 @@ static std::vector<FwdCase> fwd_cases()
     return v;
 }
 
+
+// =====================================================================================================================
+// swap under aliasing: two DISTINCT wrappers whose closures designate the same / different objects
+// =====================================================================================================================
+// For every closure combination with at least one reference closure: value referents {same, distinct} x flag referents
+// {same, distinct} x initial contents, then a.swap(b) / b.swap(a) / free swap / a.swap(a).  Oracle: swap exchanges the contents
+// of the DESIGNATED objects component by component (a component both wrappers designate in common keeps its content), and no
+// wrapper is rebound.
+template <bool B> using sw_bool = std::integral_constant<bool, B>;
+template <class T> static T& sw_pick(std::true_type, T& r, T) { return r; }
+template <class T> static T sw_pick(std::false_type, T&, T v) { return v; }
+static int sw_rd(const int& v) { return v; }
+static int sw_rd(const Counted& v) { return rd(v); }
+static int sw_rd(const bool& v) { return v ? 1 : 0; }
+
+struct FamOpt
+{
+    static const char* name() { return "optional"; }
+    template <class V, class F> static auto mk(V&& v, F&& f) { return xtl::optional(std::forward<V>(v), std::forward<F>(f)); }
+    template <class W> static decltype(auto) value(W& w) { return w.value(); }
+    template <class W> static decltype(auto) flag(W& w) { return w.has_value(); }
+    static const int nops = 3;
+    template <class W> static void op(int o, W& a, W& b) { if (o == 0) a.swap(b); else if (o == 1) b.swap(a); else a.swap(a); }
+};
+struct FamMask
+{
+    static const char* name() { return "masked_value"; }
+    template <class V, class F> static auto mk(V&& v, F&& f) { return xtl::masked_value(std::forward<V>(v), std::forward<F>(f)); }
+    template <class W> static decltype(auto) value(W& w) { return w.value(); }
+    template <class W> static decltype(auto) flag(W& w) { return w.visible(); }
+    static const int nops = 4;
+    template <class W> static void op(int o, W& a, W& b) { if (o == 0) a.swap(b); else if (o == 1) b.swap(a); else if (o == 2) a.swap(a); else xtl::swap(a, b); }
+};
+static const char* sw_opname(int o) { static const char* n[4] = {"a.swap(b)", "b.swap(a)", "a.swap(a)", "swap(a,b)"}; return n[o]; }
+
+template <class Fam, bool VR, bool FR, class P>
+static void swap_alias_cases(const std::string& only)
+{
+    const std::string clos = std::string(VR ? "T&" : "T") + "," + (FR ? "B&" : "B");
+    for (int vsame = 0; vsame <= (VR ? 1 : 0); ++vsame)
+    for (int fsame = 0; fsame <= (FR ? 1 : 0); ++fsame)
+    for (int vy = 10; vy <= 20; vy += 10)          // y == x or y != x
+    for (int f0 = 0; f0 <= 1; ++f0)
+    for (int g0 = 0; g0 <= 1; ++g0)
+    for (int o = 0; o < Fam::nops; ++o)
+    {
+        std::string id = std::string(Fam::name()) + "," + clos + "," + pname<P>::get() + "," + vf::str(vsame) + "," + vf::str(fsame) + "," + vf::str(vy) + "," +
+                         vf::str(f0) + "," + vf::str(g0) + "," + vf::str(o);
+        if (!only.empty() && only != id) continue;
+        std::snprintf(g_shared, 4000, "%s", id.c_str());
+        registry& reg = registry::get();
+        reg.errors = 0;
+        vf::take_asan();
+        size_t base = reg.live.size();
+        ++g_eval;
+        std::string cfg = std::string("value-") + (!VR ? "owned" : vsame ? "same" : "distinct") + ",flag-" + (!FR ? "owned" : fsame ? "same" : "distinct");
+        std::string sig = std::string("C07/") + Fam::name() + "(" + clos + ")/swap:" + cfg + "/";
+        std::string what = std::string(Fam::name()) + "(v,f) with closures (" + clos + "), payload " + pname<P>::get() + ": a on (x=10, f=" + vf::str(f0) + "), b on (" +
+                           (VR ? (vsame ? "the same x" : "y=" + vf::str(vy)) : "owned " + vf::str(vy)) + ", " + (FR ? (fsame ? "the same f" : "g=" + vf::str(g0)) : "owned " + vf::str(g0)) +
+                           "), then " + sw_opname(o) + ": ";
+        std::vector<std::string> replay = {"--part", "swapalias", "--one", id};
+        {
+            P x(10), y(vy);
+            bool f = f0 != 0, g = g0 != 0;
+            auto a = Fam::mk(sw_pick<P>(sw_bool<VR>(), x, P(10)), sw_pick<bool>(sw_bool<FR>(), f, f0 != 0));
+            auto b = Fam::mk(sw_pick<P>(sw_bool<VR>(), vsame ? x : y, P(vy)), sw_pick<bool>(sw_bool<FR>(), fsame ? f : g, g0 != 0));
+            // model: the content of the object each component designates (value cell of a / of b; -1 = the same cell as a's)
+            int va = 10, vb = (VR && vsame) ? 10 : vy;
+            int fa = f0, fb = (FR && fsame) ? f0 : g0;
+            bool self = (o == 2);
+            bool v_common = self || (VR && vsame), f_common = self || (FR && fsame);
+            int eva = v_common ? va : vb, evb = v_common ? vb : va;
+            int efa = f_common ? fa : fb, efb = f_common ? fb : fa;
+            if ((eva != va) || (efa != fa) || (evb != vb) || (efb != fb)) ++g_nontrivial;
+            const void* ava = &Fam::value(a); const void* avb = &Fam::value(b);
+            const void* afa = &Fam::flag(a); const void* afb = &Fam::flag(b);
+            Fam::op(o, a, b);
+            bool ok = true;
+            if (&Fam::value(a) != ava || &Fam::value(b) != avb || &Fam::flag(a) != afa || &Fam::flag(b) != afb ||
+                (VR && (ava != static_cast<const void*>(&x) || avb != static_cast<const void*>(vsame ? &x : &y))) ||
+                (FR && (afa != static_cast<const void*>(&f) || afb != static_cast<const void*>(fsame ? &f : &g))))
+            { vf::violation(sig + "rebound", what + "a component designates a different object than before the swap / than the lvalue it was built from", replay); ok = false; }
+            if (ok && (sw_rd(Fam::value(a)) != eva || sw_rd(Fam::value(b)) != evb))
+            { vf::violation(sig + "values-not-exchanged", what + "the values read a=" + vf::str(sw_rd(Fam::value(a))) + " b=" + vf::str(sw_rd(Fam::value(b))) + ", expected a=" + vf::str(eva) + " b=" + vf::str(evb), replay); ok = false; }
+            if (ok && (sw_rd(Fam::flag(a)) != efa || sw_rd(Fam::flag(b)) != efb))
+            { vf::violation(sig + "flags-not-exchanged", what + "the flags read a=" + vf::str(sw_rd(Fam::flag(a))) + " b=" + vf::str(sw_rd(Fam::flag(b))) + ", expected a=" + vf::str(efa) + " b=" + vf::str(efb) +
+                                                        " (swap must exchange what the flag closures designate even when the value closures designate one object)", replay); ok = false; }
+            // the originals that no closure designates are untouched
+            if (ok && VR && !vsame && !self && (sw_rd(x) != eva || sw_rd(y) != evb)) { vf::violation(sig + "original-value", what + "the value originals do not hold the exchanged contents", replay); ok = false; }
+            if (ok && VR && vsame && sw_rd(y) != vy) { vf::violation(sig + "original-value", what + "an original that no wrapper designates changed", replay); ok = false; }
+            if (ok && FR && fsame && sw_rd(g) != g0) { vf::violation(sig + "original-value", what + "a flag that no wrapper designates changed", replay); ok = false; }
+        }
+        if (reg.errors) { vf::violation(sig + "lifetime", what + reg.first_error, replay); reg.errors = 0; }
+        if (vf::take_asan()) vf::violation(sig + "asan-report", what + "AddressSanitizer reported a memory error", replay);
+        if (reg.live.size() != base) vf::violation(sig + "leak", what + "payload objects still alive afterwards", replay);
+    }
+}
+
+// single-closure wrapper: closure(x) vs closure(x) (true alias) and closure(y)
+template <class P>
+static void swap_alias_closure(const std::string& only)
+{
+    for (int vsame = 0; vsame <= 1; ++vsame)
+    for (int vy = 10; vy <= 20; vy += 10)
+    for (int o = 0; o < 4; ++o)
+    {
+        std::string id = std::string("closure,T&,") + pname<P>::get() + "," + vf::str(vsame) + ",0," + vf::str(vy) + ",0,0," + vf::str(o);
+        if (!only.empty() && only != id) continue;
+        std::snprintf(g_shared, 4000, "%s", id.c_str());
+        registry& reg = registry::get();
+        reg.errors = 0;
+        vf::take_asan();
+        ++g_eval;
+        std::string sig = std::string("C07/closure(T&)/swap:value-") + (vsame ? "same" : "distinct") + "/";
+        std::string what = std::string("closure(x) and closure(") + (vsame ? "x" : "y") + "), payload " + pname<P>::get() + ", x=10 y=" + vf::str(vy) + ", then " + sw_opname(o) + ": ";
+        std::vector<std::string> replay = {"--part", "swapalias", "--one", id};
+        P x(10), y(vy);
+        auto a = xtl::closure(x);
+        auto b = xtl::closure(vsame ? x : y);
+        bool common = vsame || o == 2;
+        int ex = common ? 10 : vy, ey = common ? vy : 10;
+        if (!common && vy != 10) ++g_nontrivial;
+        if (o == 0) a.swap(b); else if (o == 1) b.swap(a); else if (o == 2) a.swap(a); else { using std::swap; swap(a, b); }
+        if (&a.get() != &x || &b.get() != (vsame ? &x : &y)) vf::violation(sig + "rebound", what + "a wrapper designates a different object after the swap", replay);
+        else if (sw_rd(x) != ex || sw_rd(y) != ey) vf::violation(sig + "values-not-exchanged", what + "x=" + vf::str(sw_rd(x)) + " y=" + vf::str(sw_rd(y)) + ", expected x=" + vf::str(ex) + " y=" + vf::str(ey), replay);
+        if (reg.errors) { vf::violation(sig + "lifetime", what + reg.first_error, replay); reg.errors = 0; }
+        if (vf::take_asan()) vf::violation(sig + "asan-report", what + "AddressSanitizer reported a memory error", replay);
+    }
+}
+
+template <class Fam, class P>
+static void swap_alias_family(const std::string& only)
+{
+    swap_alias_cases<Fam, true, true, P>(only);
+    swap_alias_cases<Fam, true, false, P>(only);
+    swap_alias_cases<Fam, false, true, P>(only);
+}
+
+static void swap_alias_all(const std::string& only)
+{
+    long long before = g_eval;
+    swap_alias_family<FamOpt, int>(only);
+    swap_alias_family<FamOpt, Counted>(only);
+    swap_alias_family<FamMask, int>(only);
+    swap_alias_family<FamMask, Counted>(only);
+    swap_alias_closure<int>(only);
+    swap_alias_closure<Counted>(only);
+    vf::stat("scenarios[swap-under-aliasing]", g_eval - before);
+    if (only.empty())
+        vf::sample("swap under aliasing: {optional, masked_value} x closures {(T&,B&),(T&,B),(T,B&)} x value referents {same,distinct} x flag referents {same,distinct} x y in {==x, !=x} x "
+                   "flag contents 2x2 x {a.swap(b), b.swap(a), a.swap(a), swap(a,b)} x payload {int, Counted}; closure(x) vs closure(x|y); e.g. optional(x,f) and optional(x,g), f=1 g=0, a.swap(b): f and g must be exchanged, x unchanged");
+}
+
 // =====================================================================================================================
 static void flush_child_stats()
 {
@@ -399,6 +554,10 @@ int main(int argc, char** argv)
                 if (ok) bit_dispatch(blk, view != 0, path, pos, pat, ops);
             }
         }
+        else if (part == "swapalias")
+        {
+            swap_alias_all(one);
+        }
         else if (part == "fwdseq")
         {
             std::vector<FwdCase> cases = fwd_cases();
@@ -423,7 +582,7 @@ int main(int argc, char** argv)
     {
         std::string s = g_shared;
         std::string how = WIFSIGNALED(st) ? "signal-" + vf::str(WTERMSIG(st)) : "abnormal-exit";
-        vf::violation("C07/" + (part == "bitref" ? std::string("bitset-reference") : std::string("forward_sequence")) + "/crash/" + how,
+        vf::violation("C07/" + (part == "bitref" ? std::string("bitset-reference") : part == "swapalias" ? std::string("swap-under-aliasing") : std::string("forward_sequence")) + "/crash/" + how,
                       "the process died (" + how + ") while executing " + s, {"--part", part, "--one", s});
     }
     vf::done();
